@@ -1575,6 +1575,11 @@ class ClassicChannel(utils.EventEmitter):
             logger.warning('unexpected source or destination CID')
             return
 
+        if self.state != self.State.WAIT_DISCONNECT:
+            # We did not ask for a disconnection: ignore
+            logger.warning(color('invalid state', 'red'))
+            return
+
         self._change_state(self.State.CLOSED)
         if self.disconnection_result:
             self.disconnection_result.set_result(None)
